@@ -45,6 +45,13 @@ def gen_case(rng):
         a = gen.gen_contract(rng, g, 'co', spec['assets'][0]['nodes'][0], f, sorted(spec['prices'])[0], window=False, take=False, dict_caps=False)
         a['freq'] = gen.pick(rng, gen.COARSE_OF[g['freq']]); a['wacc'] = 0.
         spec['assets'].append(a)
+    if rng.random() < 0.15 and g['freq'] in gen.PERIOD_OF and gen.equal_steps(g) and len(gen.grid_points(g)) >= 8:
+        # a periodic asset without price (its joined variables act in the present and in the future; their cost does not depend on the scenario)
+        per, dur = gen.pick(rng, gen.PERIOD_OF[g['freq']])
+        pe = {'type': 'SimpleContract', 'name': 'pe', 'nodes': [spec['assets'][0]['nodes'][0]], 'periodicity': per, 'min_cap': -2. * f, 'max_cap': 3. * f, 'extra_costs': 0.4, 'wacc': 0.}
+        if dur:
+            pe['periodicity_duration'] = dur
+        spec['assets'].append(pe)
     spec = gen.strip_private(spec)
     T = len(gen.grid_points(g))
     k = int(gen.pick(rng, [0] + list(range(1, T)) * 3))
